@@ -42,7 +42,21 @@ def get_component_full_name( c_rtype ):
     # types with different field widths print alike
     if is_bitstruct_inst(obj):
       return f"{get_rtlir_dtype( obj ).get_name()}_{obj}"
+    # str() of a container names a class inside it <class 'types.Msg'>: two
+    # bitstruct classes of one name but different fields would look alike
+    if isinstance(obj, (list, tuple, dict)) and has_type( obj ):
+      if isinstance(obj, dict):
+        return '{' + ', '.join( f"{get_string(k)}: {get_string(v)}" for k, v in obj.items() ) + '}'
+      l, r = '[]' if isinstance(obj, list) else '()'
+      return l + ', '.join( get_string(x) if isinstance(x, (type, list, tuple, dict)) else repr(x) for x in obj ) + r
     return str( obj )
+
+  def has_type( obj ):
+    if isinstance(obj, dict):
+      return any( has_type(x) for x in obj.values() )
+    if isinstance(obj, (list, tuple)):
+      return any( has_type(x) for x in obj )
+    return isinstance(obj, type)
 
   comp_name = c_rtype.get_name()
   comp_params = c_rtype.get_params()
